@@ -25,7 +25,7 @@ var ghostKinds = map[string]string{
 	"synced": "bool", "created": "bool", "locked": "bool",
 	"first": "uint64", "last": "uint64", "nstored": "int", "ncalls": "int",
 	"persistedID": "uint64", "commits": "int",
-	"data": "bytes", "codecID": "uint64", "ctxerr": "error",
+	"data": "bytes", "codecID": "uint64", "ctxerr": "error", "base": "uint64", "sealed": "bool", "indexStart": "uint64",
 }
 
 // ghostGlobal returns the value of a ghost global integer (names g_*).
